@@ -407,7 +407,7 @@ func (h *Session) Notify(frame Frame) {
 		if !frame.SrcAddr.IP.IsValid() {
 			return
 		}
-		frame.Host = h.findIP(frame.SrcAddr.IP)
+		frame.Host = h.FindIP(frame.SrcAddr.IP) // takes the session lock: purge may be deleting hosts
 		if frame.Host == nil {
 			return
 		}
